@@ -381,6 +381,9 @@ CHECKS["C18"] = {
         {"name": "tcp-race", "pkg": "srvworld", "run": "^TestC18TCP$", "race": True,
          "quick": {"shards": 2, "checks": 300, "timeout_s": 500},
          "thorough": {"shards": 8, "checks": 5000, "size": 40, "timeout_s": 3000}},
+        {"name": "tcp-storm-race", "pkg": "srvworld", "run": "^TestC18TCPStorm$", "race": True,
+         "quick": {"shards": 4, "checks": 100, "timeout_s": 500},
+         "thorough": {"shards": 16, "checks": 1500, "timeout_s": 3000}},
         {"name": "client-race", "pkg": "cliworld", "run": "^TestC18Client$", "race": True,
          "quick": {"shards": 2, "checks": 150, "timeout_s": 500},
          "thorough": {"shards": 8, "checks": 3000, "timeout_s": 3000}},
